@@ -7,7 +7,7 @@ malformed inputs; strict and salvage mode): bytes accepted by write() on the out
 never exceed the declared length; strict mode: status OK <=> exactly the declared length.
 Correspondence: model vs implementation on (status, written) where a model exists."""
 import os, struct
-from lib import common as C
+from lib import common as C, minicab
 from lib.pipeline import Finding
 from checks import scenarios as S
 
@@ -56,6 +56,23 @@ def generate(ctx):
                 pf = ph + pb1 + pb2
                 yield [f"file patch.oab {pf.hex()}", f"file base.oab {bytes(200).hex()}", "new oab", "decompressinc i0 patch.oab base.oab out", "destroy i0"], \
                       dict(family="oab.size-wrap", how="directed", salvage=0, kind="oab", oab_declared=target)
+    # directed: a decompressor used with its DEFAULT parameters (no set_param at all - cabextract always sets them, the
+    # library's other users need not) on members declared longer than their folder's blocks hold, the allocator
+    # handing out memory filled with each byte: the defaults are strict mode, whatever the memory held before
+    import zlib
+    for comp in (0, 1):
+        for blocks in ((100,), (50, 7)):
+            datas = [bytes(rng.choice(b"abcdef") for _ in range(k)) for k in blocks]
+            def ck(d):
+                co = zlib.compressobj(9, zlib.DEFLATED, -15); return b"CK" + co.compress(d) + co.flush()
+            payloads = [((ck(d) if comp else d), len(d)) for d in datas]
+            have = sum(blocks)
+            for extra in (1, 100):
+                cab, _ = minicab.build([(comp, payloads)], [dict(name=b"a.bin", length=have + extra, offset=0, folder=0),
+                                                            dict(name=b"b.bin", length=extra + 10, offset=have - 10, folder=0)])
+                for fill in ("00", "01", "55", "aa", "ff"):
+                    yield [f"fill {fill}", f"file x.cab {cab.hex()}", "new cab", "open i0 x.cab", "extract i0 h0 0 o0", "extract i0 h0 1 o1", "close i0 h0", "destroy i0"], \
+                          dict(family="cab.default-params", how="directed", salvage=0, kind="cab", fill=fill, comp=comp)
     n = 60 if ctx.tier == "quick" else 2500
     for case in S.valid_cases(rng, n, kinds=["cab", "cab", "cab", "chm", "chm", "oab"], avoid_defects=True):
         variants = [(case["files"], "valid")] + S.malform(rng, case, 3 if ctx.tier == "quick" else 6)
@@ -63,6 +80,7 @@ def generate(ctx):
             c2 = dict(case, files=files)
             salv = rng.choice([0, 0, 1]) if case["kind"] == "cab" else 0
             params = [("SALVAGE", salv), ("DECOMPBUF", rng.choice([4, 7, 64, 4096]))] if case["kind"] == "cab" else []
+            if salv == 0 and rng.random() < 0.3: params = []          # the defaults: strict mode, 4096-byte buffer
             lines = S.file_lines(c2) + S.generic_ops(c2, params)
             meta = dict(family=case["kind"] + "." + ("valid" if how == "valid" else "malformed"), how=how, salvage=salv, kind=case["kind"])
             if case["kind"] == "oab":
